@@ -153,3 +153,19 @@ CLAIMS["C13"] = dict(
          "execution in the same process running normally (a dead worker shows as a hang).",
     design_ref="DESIGN.md §6 C13",
 )
+
+CLAIMS["C09"] = dict(
+    text="Park.tla (the canceller's set-bit / take-slot / take-coroutine steps against the parker's user-side check, the "
+         "kernel-side store, cancel registration and re-check) is checked exhaustively by TLC; the L2 specifications of Mutex, "
+         "Semaphore, SyncFlag, Condvar, RwLock, the mpsc channel and Scope each contain a Cancel action for one victim and the "
+         "forwarding obligations (a hand-off / permit / notification that raced with the cancel reaches another waiter: "
+         "deadlock-freedom and conservation invariants). Their TLC behaviours, incl. the cancel, are replayed into the real "
+         "primitives. The real cancel protocol is explored at atomic-step granularity with the canceller as an actor (park "
+         "scenario: Blocker, handle park, timed park, sleep), and the `cancelmix` scenario drives one victim through park, "
+         "sleep, Mutex, RwLock, Semphore, mpsc, mpmc, SyncFlag, Condvar and join with a cancel at every scheduling point. "
+         "Oracle: join() is Ok after the whole program or Err(Cancel), never hangs; a cancel that returned before the final "
+         "yield is not ignored; every stack-owned value dropped exactly once; locks neither leaked nor poisoned; nobody else "
+         "panics or sees Canceled (incl. the next coroutine on the same stack).",
+    note="Socket read/accept/connect cancellation belongs to the io properties (C18) and is not part of this check; SC memory; bounded instances.",
+    design_ref="DESIGN.md §6 C09",
+)
